@@ -466,6 +466,81 @@ func (e *Engine) Prelude(sp *spec.File) (decls []string, quants []smt.Quant) {
 			quants = append(quants, smt.Quant{Name: fmt.Sprintf("split%d", i), Vars: vars, Body: sx.MustParse1(body), Pats: pat})
 		}
 	}
+	if _, ok := e.extraFn["uf:native_std_StringSplit"]; ok {
+		// more of the trusted contract of std.StringSplit: no fragment holds the (non-empty) separator, and the
+		// fragments with the separators between them add up to the text (std_splitacc(s, sep, k): length of the first k
+		// fragments joined by the separator)
+		e.extraFn["uf:std_splitacc"] = "(declare-fun std_splitacc (String String Int) Int)"
+		sp := "(native_std_StringSplit s sep)"
+		at := "(bv (select (L_NB_arr " + sp + ") i))"
+		v2 := []smt.Var{{Name: "s", Sort: "String"}, {Name: "sep", Sort: "String"}}
+		v3 := append(append([]smt.Var{}, v2...), smt.Var{Name: "i", Sort: "Int"})
+		quants = append(quants,
+			smt.Quant{Name: "splitNoSep", Vars: v3, Pats: [][]*sx.T{{sx.MustParse1("(select (L_NB_arr " + sp + ") i)")}},
+				Body: sx.MustParse1("(=> (and (>= (str.len sep) 1) (<= 0 i) (< i (L_NB_len " + sp + "))) (and (not (str.contains " + at + " sep)) (not (isnull (select (L_NB_arr " + sp + ") i)))))")},
+			smt.Quant{Name: "splitAcc0", Vars: v2, Pats: [][]*sx.T{{sx.MustParse1(sp)}},
+				Body: sx.MustParse1("(and (= (std_splitacc s sep 0) 0) (=> (>= (str.len sep) 1) (= (std_splitacc s sep (L_NB_len " + sp + ")) (str.len s))))")},
+			smt.Quant{Name: "splitAccS", Vars: v3, Pats: [][]*sx.T{{sx.MustParse1("(select (L_NB_arr " + sp + ") i)")}},
+				Body: sx.MustParse1("(=> (and (<= 0 i) (< i (L_NB_len " + sp + "))) (= (std_splitacc s sep (+ i 1)) (+ (std_splitacc s sep i) (str.len " + at + ") (ite (> i 0) (str.len sep) 0))))")},
+		)
+	}
+	for _, base := range []int{10, 16} {
+		if _, ok := e.extraFn[fmt.Sprintf("uf:std_atoi%d_ok", base)]; !ok {
+			continue
+		}
+		// Trusted contract of the native StdLib atoi (neo-go pkg/core/native/std.go). Validity: at most 1024 bytes and
+		// base 10: [+-]?[0-9]+ (big.Int.SetString); base 16: [0-9a-fA-F]* (hex.DecodeString after padding to even length).
+		// Value, base 10: non-negative without sign, the digit itself for one digit, at least 10^(len-1) without leading zero.
+		// Value, base 16 (std_hexu: unsigned reading): two's complement of the digits, i.e. hexu - 16^len when the first
+		// digit is 8 or more (also for odd lengths: the padding nibble is sign-extended); stated for up to 5 digits.
+		ok := fmt.Sprintf("(std_atoi%d_ok f)", base)
+		val := fmt.Sprintf("(std_atoi%d f)", base)
+		bad := fmt.Sprintf("(std_atoi%d_bad f)", base)
+		code := func(i string) string { return "(str.to_code (str.at f " + i + "))" }
+		vf := []smt.Var{{Name: "f", Sort: "String"}}
+		vfi := []smt.Var{{Name: "f", Sort: "String"}, {Name: "i", Sort: "Int"}}
+		pOK := [][]*sx.T{{sx.MustParse1(ok)}}
+		pOKi := [][]*sx.T{{sx.MustParse1(ok), sx.MustParse1("(str.at f i)")}}
+		pVal := [][]*sx.T{{sx.MustParse1(val)}}
+		add := func(name string, vars []smt.Var, pats [][]*sx.T, body string) {
+			quants = append(quants, smt.Quant{Name: fmt.Sprintf("atoi%d%s", base, name), Vars: vars, Body: sx.MustParse1(body), Pats: pats})
+		}
+		if base == 10 {
+			lo := "(ite (or (= (str.at f 0) \"+\") (= (str.at f 0) \"-\")) 1 0)"
+			dig := func(c string) string { return "(and (<= 48 " + c + ") (<= " + c + " 57))" }
+			add("Digits", vfi, pOKi, "(=> (and "+ok+" (<= "+lo+" i) (< i (str.len f))) "+dig(code("i"))+")")
+			add("Len", vf, pOK, "(=> "+ok+" (and (>= (str.len f) (+ 1 "+lo+")) (<= (str.len f) 1024)))")
+			add("Bad", vf, pOK, "(=> (not "+ok+") (or (< (str.len f) (+ 1 "+lo+")) (> (str.len f) 1024) (and (<= "+lo+" "+bad+") (< "+bad+" (str.len f)) (not "+dig(code(bad))+"))))")
+			add("NonNeg", vf, pVal, "(=> (and "+ok+" (= "+lo+" 0)) (>= "+val+" 0))")
+			add("One", vf, pVal, "(=> (and "+ok+" (= "+lo+" 0) (= (str.len f) 1)) (= "+val+" (- "+code("0")+" 48)))")
+			for k, p := range []int{1, 10, 100, 1000} {
+				add(fmt.Sprintf("Lead%d", k), vf, pVal, fmt.Sprintf("(=> (and %s (= %s 0) (not (= (str.at f 0) \"0\")) (>= (str.len f) %d)) (>= %s %d))", ok, lo, k+1, val, p))
+				add(fmt.Sprintf("Up%d", k), vf, pVal, fmt.Sprintf("(=> (and %s (= %s 0) (= (str.len f) %d)) (< %s %d))", ok, lo, k+1, val, p*10))
+			}
+			continue
+		}
+		hex := func(c string) string {
+			return "(or (and (<= 48 " + c + ") (<= " + c + " 57)) (and (<= 97 " + c + ") (<= " + c + " 102)) (and (<= 65 " + c + ") (<= " + c + " 70)))"
+		}
+		hexd := func(c string) string {
+			return "(ite (<= " + c + " 57) (- " + c + " 48) (ite (>= " + c + " 97) (- " + c + " 87) (- " + c + " 55)))"
+		}
+		hu := "(std_hexu f)"
+		pHu := [][]*sx.T{{sx.MustParse1(hu)}}
+		add("Digits", vfi, pOKi, "(=> (and "+ok+" (<= 0 i) (< i (str.len f))) "+hex(code("i"))+")")
+		add("Len", vf, pOK, "(=> "+ok+" (<= (str.len f) 1024))")
+		add("Bad", vf, pOK, "(=> (not "+ok+") (or (> (str.len f) 1024) (and (<= 0 "+bad+") (< "+bad+" (str.len f)) (not "+hex(code(bad))+"))))")
+		add("UNonNeg", vf, pHu, "(>= "+hu+" 0)")
+		add("UZero", vf, [][]*sx.T{{sx.MustParse1("(std_hexu (str.++ \"0\" f))")}}, "(= (std_hexu (str.++ \"0\" f)) "+hu+")")
+		add("ZeroOk", vf, [][]*sx.T{{sx.MustParse1("(std_atoi16_ok (str.++ \"0\" f))")}}, "(= (std_atoi16_ok (str.++ \"0\" f)) (and "+ok+" (<= (str.len f) 1023)))")
+		add("Empty", vf, pVal, "(=> (= (str.len f) 0) (= "+val+" 0))")
+		p16 := 1
+		for k := 1; k <= 5; k++ {
+			add(fmt.Sprintf("URange%d", k), vf, pHu, fmt.Sprintf("(=> (and %s (= (str.len f) %d)) (and (<= (* %s %d) %s) (< %s (* (+ %s 1) %d))))", ok, k, hexd(code("0")), p16, hu, hu, hexd(code("0")), p16))
+			add(fmt.Sprintf("Val%d", k), vf, pVal, fmt.Sprintf("(=> (and %s (= (str.len f) %d)) (= %s (- %s (ite (>= %s 8) %d 0))))", ok, k, val, hu, hexd(code("0")), p16*16))
+			p16 *= 16
+		}
+	}
 	if _, ok := e.extraFn["uf:native_std_MemorySearchLastIndex"]; ok {
 		// std.MemorySearchLastIndex(mem, val, start): index of the last occurrence of val in mem[:start], or -1. Axioms
 		// over the uninterpreted function (true of the real search): a found index is an occurrence inside mem[:start];
